@@ -329,6 +329,17 @@ func oneChain(f ek.Fork, r *rand.Rand, nBlocks, txPerBlock int, tr *tl.Trace, su
 			}
 			b.AddTx(tx)
 		}
+		if !f.Merge && i >= 2 && r.Intn(3) != 0 {
+			// proof-of-work: include earlier blocks again as uncles mined by somebody else (the chain maker
+			// needs the uncle's parent among the generated blocks: siblings of block 2 and later)
+			nu := 1 + r.Intn(2)
+			for d := 1; d <= nu && i-d >= 1; d++ {
+				u := b.PrevBlock(i - d).Header()
+				u.Extra = []byte{byte(d)}
+				u.Coinbase = common.BytesToAddress([]byte{0xbb, byte(d)})
+				b.AddUncle(u)
+			}
+		}
 		if f.Idx >= ek.Shanghai && !wdDone && r.Intn(2) == 0 {
 			// one 1-gwei withdrawal per chain keeps all sums below 2^31 wei
 			b.AddWithdrawal(&types.Withdrawal{Validator: 5, Address: wdTarget, Amount: 1})
@@ -398,8 +409,13 @@ func replay(f ek.Fork, gspec *core.Genesis, rdb ethdb.Database, engine consensus
 			wds = append(wds, tl.M{"a": l.id(w.Address), "amt": ww})
 			st.withdrawals++
 		}
+		uncles := []tl.M{}
+		for _, u := range block.Uncles() {
+			uncles = append(uncles, tl.M{"a": l.id(u.Coinbase), "dist": int64(header.Number.Uint64() - u.Number.Uint64())})
+			st.rewards++
+		}
 		tr.Emit(tl.M{"op": "block", "fork": f.Idx, "n": header.Number.Uint64(), "basefee": basefee, "blobbasefee": blobbase,
-			"coinbase": l.id(header.Coinbase), "wd": wds, "pow": header.Difficulty.Sign() > 0, "tw": tw, "tu": tu})
+			"coinbase": l.id(header.Coinbase), "wd": wds, "pow": header.Difficulty.Sign() > 0, "uncles": uncles, "tw": tw, "tu": tu})
 
 		moved := false
 		hooks := &tracing.Hooks{
@@ -520,6 +536,7 @@ func main() {
 	sum.Extra["reverted_frames"] = st.reverted
 	sum.Extra["selfdestructs"] = st.selfdestructs
 	sum.Extra["withdrawals"] = st.withdrawals
+	sum.Extra["uncles"] = st.rewards
 	sum.Extra["balance_changes"] = st.changes
 	sum.Rule = "seeded random chains x rule sets replayed by StateProcessor.Process; distinct = transactions with at least one value-moving frame or balance change beyond gas payment"
 	sum.Write(*out)
